@@ -71,6 +71,23 @@ def run(ctx):
   if ok:
     lpn = [x for x in g.live_nodes() if x.kind == 'for' and x.ast is vg[0][1]]
     ok = bool(lpn) and witness(g, g.entry.id, [w.call_node.id], avoid=[lpn[0].id]) is None
+  if not ok:
+    # equivalent form:  if any(v is REQUIRED for v in args[len(names):]): raise
+    for n in g.live_nodes():
+      if n.kind == 'raise_stmt':
+        for fct in facts[n.id]:
+          if fct[0] == 'c' and fct[2] is True and fct[1].startswith('any('):
+            t = ast.parse(fct[1], mode='eval').body
+            if isinstance(t, ast.Call) and t.args and isinstance(t.args[0], ast.GeneratorExp):
+              ge = t.args[0]
+              it = ge.generators[0].iter
+              cond = isinstance(ge.elt, ast.Compare) and isinstance(ge.elt.ops[0], ast.Is) and u(ge.elt.comparators[0]) == REQ \
+                  and u(ge.elt.left) == u(ge.generators[0].target)
+              sl = isinstance(it, ast.Subscript) and u(it.value) == w.A and isinstance(it.slice, ast.Slice) and it.slice.upper is None \
+                  and it.slice.lower is not None and w.posnames and u(it.slice.lower) == 'len(%s)' % w.posnames
+              tests = [x for x in g.live_nodes() if x.kind == 'test' and u(x.ast) == fct[1]]
+              if cond and sl and tests and witness(g, g.entry.id, [w.call_node.id], avoid=[tests[0].id]) is None:
+                ok = True
   ctx.check(ok, 'C10.vararg', con, 'the marker among unnamed (variadic) positionals raises before anything else is done',
             'passing the REQUIRED marker for an unnamed variadic positional is no longer rejected', f.loc(), instance='vararg')
 
